@@ -124,6 +124,11 @@ def rule_cover(ck, facts, cg):
 
 
 def run(ck, facts, tier):
+    from ..rules import scratchlocal as _sl
+
+    _cov = roles.wasm_lowering(facts)
+    if _cov is not None:
+        _sl.run(ck, facts, "C05.scratch", roles.LANG, _cov)
     cg = CallGraph(facts, ["mimium_lang"])
     ck.floor("C01.cover", "mimium_lang_bodies", len(cg.fns), 3400)
     anchors = rule_cover(ck, facts, cg)
